@@ -611,3 +611,119 @@ def c12(run):
             run.count(("permgen", c["id"], v))
     validate_dl(run, driver, [], runs, "C12 permuted program")
     run.sample({"permuted_program": dl_text("run", runs[len(runs) // 2])})
+
+
+# =============================================================== Lifecycle (C13 C18)
+
+def life_case(run, i, c):
+    script = []
+    for h in c["hist"]:
+        op = {"op": h["op"], "a": h["a"]}
+        if h["op"] == "new":
+            op["t"] = h["arg"]["t"] - 1
+        elif h["op"] == "add":
+            op["az"] = h["arg"]
+        elif h["op"] == "query":
+            op["q"] = h["arg"]
+        script.append(op)
+    return {"id": "l%d" % i, "emb": emb_of(run, i), "toks": [dict(t, via=["mem", "bytes"][i % 2]) for t in c["toks"]], "script": script}
+
+
+def life_text(c):
+    out = []
+    for h in c["hist"]:
+        if h["op"] == "add":
+            out.append("add" + az_text(h["arg"]))
+        elif h["op"] == "query":
+            out.append("query(" + rule_text(h["arg"]) + ")")
+        elif h["op"] == "new":
+            out.append("new#%d(token %d)" % (h["a"], h["arg"]["t"]))
+        else:
+            out.append("%s#%d" % (h["op"], h["a"]))
+    return " ; ".join(out)
+
+
+def life_judge(c, o):
+    if "obs" not in o:
+        return ["driver: " + json.dumps(o)[:300]]
+    bad = []
+    for k, (h, ob) in enumerate(zip(c["hist"], o["obs"])):
+        e = h["exp"]
+        if "v" in e:
+            exp = {CLASSMAP[x] for x in e["v"]}
+            if ob.get("v") not in exp:
+                bad.append("step %d %s#%d = %s, specification says %s" % (k, h["op"], h["a"], ob.get("v"), sorted(exp)))
+        elif "rows" in e:
+            exp = sorted(tuple(r[1:]) for r in e["rows"])
+            if rows(ob.get("rows")) != exp or ob.get("v") != "ok":
+                bad.append("step %d query#%d %s = %s %s, specification says %s" % (k, h["a"], rule_text(h["arg"]), ob.get("v"), rows(ob.get("rows")), exp))
+        elif "ok" in e:
+            if bool(ob.get("ok")) != e["ok"]:
+                bad.append("step %d %s#%d %s, specification says it %s" % (k, h["op"], h["a"], "succeeded" if ob.get("ok") else "failed: " + str(ob.get("err")),
+                                                                        "succeeds" if e["ok"] else "is refused"))
+    return bad
+
+
+def life_check(run, cfgs):
+    driver = core.build_driver(run.work)
+    insts = []
+    for cfg, what, kw in cfgs:
+        r = core.tlc(run.work, "Lifecycle", cfg, timeout=3400, **kw)
+        run.add_tlc(r, what)
+        if kw.get("expect_violation"):
+            if not r.violated:
+                raise Infra("negative model %s did not violate its invariant" % cfg)
+            run.notes.append("negative model %s: TLC reports %s violated" % (cfg, r.violated))
+            continue
+        insts += r.cases
+    cases = [life_case(run, i, c) for i, c in enumerate(insts)]
+    res = core.run_driver(driver, "authz", cases, per_case_timeout=120)
+    nbad = 0
+    for c, dc in zip(insts, cases):
+        o = res[dc["id"]]
+        run.count(life_text(c))
+        bad = life_judge(c, o) if not o.get("crash") else ["process died: " + o.get("stderr", "")[-300:]]
+        if bad and nbad < 25:
+            nbad += 1
+            rc = confirm_case(driver, "authz", dc, o, ("obs",))
+            run.report({"history": life_text(c)}, dict(dc, inst=c), "life", "%s: %s" % (life_text(c), "; ".join(bad)), (lambda rc=rc: rc is not None))
+    run.traces += len(cases)
+    for k in (len(insts) // 3, 2 * len(insts) // 3):
+        run.sample({"history": life_text(insts[k]), "expected": [h["exp"] for h in insts[k]["hist"] if h["op"] in ("authorize", "query", "save")]})
+
+
+def replay_life(run, body):
+    driver = core.build_driver(run.work)
+    dc = dict(body["case"])
+    c = dc.pop("inst")
+    o = core.run_driver(driver, "authz", [dc], nproc=1)[str(dc["id"])]
+    bad = life_judge(c, o) if not o.get("crash") else ["process died"]
+    run.count("replay")
+    if bad:
+        run.report(body["sig"], body["case"], "life", "replayed: %s: %s" % (life_text(c), "; ".join(bad)))
+
+
+REPLAYERS["life"] = replay_life
+
+
+@check("C13")
+def c13(run):
+    run.rule = ("Lifecycle.tla models the authorizer object (New/Add/Authorize/Query/Reset); TLC enumerates every history of "
+                "2 (quick) / 3 (thorough) rounds [add content; authorize or query; reset] over 3 tokens x 24 contents x 3 evaluations, "
+                "checks ResetClean (state after Reset = state of New) and exports each history with the outcomes a fresh authorizer "
+                "would give; the driver replays the history on ONE reused authorizer. Non-trivial = distinct histories.")
+    run.assumptions = AUTHZ_ASSUME
+    t = "thorough" if run.tier == "thorough" else "quick"
+    life_check(run, [("Lifecycle_reset_" + t, "L1 ResetClean + export of all round histories", {}),
+                     ("Lifecycle_neg_base", "negative model: base world overwritten after Authorize", {"expect_violation": True})])
+
+
+@check("C18")
+def c18(run):
+    run.rule = ("Lifecycle.tla models SerializePolicies/LoadPolicies; TLC enumerates [new on token t; add content; (authorize|query|nothing); "
+                "save; new on ANY token t'; load; authorize; queries; authorize original] over 3x3 tokens x 24 contents, checks "
+                "SnapshotEquiv and SaveRefusedIffEvaluated, and exports the histories; the driver replays them (tokens in memory or "
+                "through bytes; constants embedded in every term type so the snapshot carries all term kinds and fresh symbols).")
+    run.assumptions = AUTHZ_ASSUME
+    t = "thorough" if run.tier == "thorough" else "quick"
+    life_check(run, [("Lifecycle_snapshot_" + t, "L1 SnapshotEquiv / SaveRefusedIffEvaluated + export", {})])
